@@ -464,3 +464,67 @@ Qed.
 (** outside its domain the function wraps to 0 *)
 Lemma upper_power_of_two_wraps : upper_power_of_two 0 = 0 /\ upper_power_of_two (2 ^ 63 + 1) = 0.
 Proof. split; vm_compute; reflexivity. Qed.
+
+(** ** the tree after the fixes d13e4f1 (padded length) and 5c817d5 (guard in main) *)
+Lemma Qctrunc_Qcz z : Qctrunc (Qcz z) = z.
+Proof.
+  unfold Qctrunc. pose proof (this_Qcz z) as E. destruct (this (Qcz z)) as [a d].
+  unfold Qeq in E. cbn [Qnum Qden inject_Z] in *. rewrite Z.mul_1_r in E. subst a.
+  apply Z.quot_mul. discriminate.
+Qed.
+
+Lemma f2u_Qcz bits z v : f2u bits (Qcz z) = Val v -> v = z /\ 0 <= z < 2 ^ bits.
+Proof. intros H. apply f2u_val in H. rewrite Qctrunc_Qcz in H. destruct H as [-> H]. split; [reflexivity | exact H]. Qed.
+
+Lemma pad_start_small64 sp b : 0 <= b < 2 ^ 32 -> 0 <= sp < 2 ^ 32 -> pad_start sp b = b * sp.
+Proof.
+  intros Hb Hs. unfold pad_start, w64. apply Z.mod_small.
+  change (2 ^ 64) with 18446744073709551616. change (2 ^ 32) with 4294967296 in *. nia.
+Qed.
+
+(** with the fixed sizing every touched cell is inside the wake buffers, for every spacing:
+    no side condition on s is left *)
+Lemma pad_in_bounds_fixed_l n nb sps padding roundp sp nm b x :
+  0 < n < 2 ^ 32 -> 1 < nb < 2 ^ 32 ->
+  spacing_bins (main_sizes n nb sps padding roundp) = Val sp ->
+  wake_nmax nb (main_sizes n nb sps padding roundp) = Val nm ->
+  Qcceil (spaced_prod n nb sps) <= 2 ^ 63 -> (nb - 1) * sp + n <= 2 ^ 63 ->
+  0 <= b < nb -> 0 <= x < n ->
+  0 <= pad_index sp b x < nm.
+Proof.
+  intros Hn Hnb Hsp Hnm Hc Hf Hb Hx.
+  unfold wake_nmax in Hnm. replace (1 <? nb) with true in Hnm by lia.
+  unfold main_sizes in Hsp, Hnm. cbn [spacing_bins spaced_bins] in Hsp, Hnm.
+  rewrite Hsp in Hnm. cbn [conv_bind] in Hnm.
+  apply f2u_Qcz in Hsp. destruct Hsp as [Esp Hs]. rewrite <- Esp in Hs.
+  destruct (f2u 64 (Qcz (Qcceil (spaced_prod n nb sps)))) as [c|] eqn:E;
+    [|destruct roundp; cbn in Hnm; discriminate].
+  apply f2u_Qcz in E. destruct E as [-> Hc0]. cbn [conv_bind] in Hnm.
+  assert (F : spaced_floor n nb sp = (nb - 1) * sp + n).
+  { unfold spaced_floor, w64. rewrite wrap32_small by lia. apply Z.mod_small.
+    change (2 ^ 64) with 18446744073709551616. change (2 ^ 32) with 4294967296 in *. nia. }
+  rewrite F in Hnm.
+  set (v := Z.max (Qcceil (spaced_prod n nb sps)) ((nb - 1) * sp + n)) in Hnm.
+  assert (V : (nb - 1) * sp + n <= v <= 2 ^ 63) by (unfold v; lia).
+  assert (N : (nb - 1) * sp + n <= nm).
+  { destruct roundp; cbn [round_up conv_bind] in Hnm; injection Hnm as <-; [|lia].
+    pose proof (upper_power_of_two_ge v ltac:(nia)). lia. }
+  unfold pad_index. rewrite pad_start_small64 by lia. nia.
+Qed.
+
+Lemma fp_guard_spec n zb : fp_guard n zb = true -> 1 <= Qctrunc zb /\ (this zb <= inject_Z (n - 2))%Q.
+Proof.
+  unfold fp_guard. intros H. apply andb_true_iff in H. destruct H as [H1 H2].
+  apply Qle_bool_iff in H1. apply Qle_bool_iff in H2. split; [|exact H2].
+  destruct (Z_lt_le_dec (Qctrunc zb) 1) as [L|G]; [|exact G].
+  apply (Qctrunc_lt zb 1 ltac:(lia)) in L. exfalso. apply (Qlt_not_le _ _ L). exact H1.
+Qed.
+
+(** whatever grid shift the program accepts, the cubic constructor stays in bounds *)
+Lemma fp_guarded_in_bounds n zb damping :
+  4 <= n <= 2 ^ 24 -> fp_guard n zb = true ->
+  exists evs, fp_events n 4 zb damping = Some evs /\ forallb (ev_ok n 4) evs = true.
+Proof.
+  intros Hn G. apply fp_guard_spec in G. destruct G as [G1 G2].
+  apply fp_table_in_bounds_l; try assumption. change (2 ^ 24) with 16777216 in Hn. change (2 ^ 30) with 1073741824. lia.
+Qed.
